@@ -408,7 +408,35 @@ def run_solve(op):
                             raise
                         rec["greedy"] = None
                 tout = params.timeout * (1 + len([1 for i in sfs["user_instrs"] if i["storage"]]))
+                peers = []
                 for peer in op["peers"]:
+                    if peer["kind"] != "refute_order":
+                        peers.append(peer)
+                        continue
+                    # expanded below, once the encoder has told us how it names the instructions
+                    peers.append(peer)
+                expanded = []
+                for peer in peers:
+                    if peer["kind"] == "refute_order":
+                        try:
+                            probe = bo.BlockOptimizer(key, copy.deepcopy(sfs), params, tout)
+                            th = {ins.id: str(t) for t, ins in probe._full_encoding.theta_to_instr.items()}
+                            uf = params.encode_terms == "uninterpreted_uf"
+                            b0 = sfs["init_progr_len"]
+                            for a, b in sfs.get("dependencies", [])[:3]:
+                                if a not in th or b not in th:
+                                    continue
+                                ta = ("theta_" + th[a]) if uf else th[a]
+                                tb = ("theta_" + th[b]) if uf else th[b]
+                                terms = ["(and (= t_%d %s) (= t_%d %s))" % (i, tb, j, ta) for i in range(b0) for j in range(i + 1, b0)]
+                                if terms:
+                                    expanded.append({"kind": "extra", "assert": "(assert (or %s))" % " ".join(terms), "pair": [a, b]})
+                        except BaseException as e:
+                            if isinstance(e, procs.Budget):
+                                raise
+                    else:
+                        expanded.append(peer)
+                for peer in expanded:
                     solver.plan = [dict(peer, keep_smt2=True)]
                     solver.n = 0
                     solver.calls = []
